@@ -580,6 +580,10 @@ ELEMENTS = ["Al", "Cu", "Ni", "Fe", "O", "U", "Si", "Mg", "Gd", "Ce", "Ag", "Zr"
 INVENTED = ["A", "B", "Xx", "Q1", "Mg2+", "core", "shl", "Zz_a", "M+", "al", "CU", "b"]
 
 
+# invented labels that are certainly no chemical symbol ("B" is boron in the package's own element table)
+NOT_ELEMENTS = [x for x in INVENTED if x != "B"]
+
+
 def species_labels(n_min=1, n_max=4, pool=None):
     pool = pool or (ELEMENTS + INVENTED)
     return st.lists(st.sampled_from(pool), min_size=n_min, max_size=n_max, unique=True)
